@@ -155,3 +155,136 @@ pub fn gen_place(out: &mut Out, rng: &mut Rng, thorough: bool) {
         }
     }
 }
+
+// ---------------------------------------------------------------------------------------------
+// adversarial payloads: "mask-aligned" byte strings whose data codewords, once placed, equal the ISO
+// condition of mask `m` on every encoding-region module they control, so that candidate `m` is almost
+// uniformly light (maximal run / 2x2 / ratio scores: stresses the scorer's integer widths).
+
+/// ISO 18004 Table 10 (independent restatement)
+fn mask_cond(m: usize, r: usize, c: usize) -> bool {
+    match m {
+        0 => (r + c) % 2 == 0,
+        1 => r % 2 == 0,
+        2 => c % 3 == 0,
+        3 => (r + c) % 3 == 0,
+        4 => (r / 2 + c / 3) % 2 == 0,
+        5 => (r * c) % 2 + (r * c) % 3 == 0,
+        6 => ((r * c) % 2 + (r * c) % 3) % 2 == 0,
+        _ => ((r + c) % 2 + (r * c) % 3) % 2 == 0,
+    }
+}
+
+/// position (row, column) of every bit of the codeword sequence, learned from the crate's own placement
+/// by placing the binary digits of the bit index in 15 passes
+fn bit_positions(v: usize) -> Vec<(usize, usize)> {
+    let ver = version_of(v);
+    let mb = h::version_max_bytes(ver);
+    let nbits = mb * 8 + h::version_missing_bits(ver);
+    let n = h::version_size(ver);
+    let mut index = vec![0usize; n * n];
+    let mut is_data = vec![false; n * n];
+    for pass in 0..15 {
+        let mut bytes = vec![0u8; mb + 1];
+        for k in 0..nbits {
+            if (k >> pass) & 1 == 1 {
+                bytes[k / 8] |= 1 << (7 - k % 8);
+            }
+        }
+        let mut q = h::create_matrix(ver);
+        h::place_on_matrix_data(&mut q, &bytes, nbits);
+        for r in 0..n {
+            for c in 0..n {
+                let m = q[r][c].0;
+                if m >> 1 == 0 {
+                    is_data[r * n + c] = true;
+                    if m & 1 == 1 {
+                        index[r * n + c] |= 1 << pass;
+                    }
+                }
+            }
+        }
+    }
+    let mut pos = vec![(0usize, 0usize); nbits];
+    for r in 0..n {
+        for c in 0..n {
+            if is_data[r * n + c] && index[r * n + c] < nbits {
+                pos[index[r * n + c]] = (r, c);
+            }
+        }
+    }
+    pos
+}
+
+pub fn aligned_payload(v: usize, e: usize, m: usize, invert: bool) -> Vec<u8> {
+    let ver = version_of(v);
+    let pos = bit_positions(v);
+    let mb = h::version_max_bytes(ver);
+    // desired interleaved sequence
+    let mut seq = vec![0u8; mb];
+    for (k, (r, c)) in pos.iter().enumerate() {
+        if k / 8 < mb && (mask_cond(m, *r, *c) != invert) {
+            seq[k / 8] |= 1 << (7 - k % 8);
+        }
+    }
+    // de-interleave the data part with the crate's own block layout
+    let gr = h::ecc_to_groups(ecl_of(e), ver);
+    let dc = h::data_codewords(ver, ecl_of(e));
+    let mut blocks: Vec<(usize, usize)> = Vec::new(); // (offset, size)
+    let mut off = 0;
+    for (cnt, sz) in gr {
+        for _ in 0..cnt {
+            blocks.push((off, sz));
+            off += sz;
+        }
+    }
+    let mut data = vec![0u8; dc];
+    let mut j = 0;
+    let maxsz = blocks.iter().map(|b| b.1).max().unwrap_or(0);
+    for i in 0..maxsz {
+        for (o, sz) in &blocks {
+            if i < *sz && j < mb && o + i < dc {
+                data[o + i] = seq[j];
+                j += 1;
+            }
+        }
+    }
+    // byte-mode payload = the bits of `data` after the 4-bit mode indicator and the count field
+    let cci = h::cci_bits(ver, mode_of(2));
+    let cap = (dc * 8 - 4 - cci) / 8;
+    let mut out = vec![0u8; cap];
+    for (i, byte) in out.iter_mut().enumerate() {
+        for b in 0..8 {
+            let k = 4 + cci + 8 * i + b;
+            if (data[k / 8] >> (7 - k % 8)) & 1 == 1 {
+                *byte |= 1 << (7 - b);
+            }
+        }
+    }
+    out
+}
+
+pub fn gen_aligned(out: &mut Out, rng: &mut Rng, thorough: bool, select: bool) {
+    let cells: Vec<(usize, usize)> = if thorough {
+        vec![(39, 0), (39, 1), (38, 0), (36, 0), (34, 0), (33, 0), (29, 0), (19, 0), (9, 1), (6, 0), (1, 0), (0, 0)]
+    } else {
+        vec![(39, 0), (33, 0), (6, 0), (0, 0)]
+    };
+    for (v, e) in cells {
+        for m in 0..8usize {
+            if !thorough && v < 39 && m % 3 != 0 { continue; }
+            for invert in [false, true] {
+                if invert && !(thorough || v == 39) { continue; }
+                let forced = if rng.chance(1, 3) { Some(rng.below(8)) } else { None };
+                out.job(move || {
+                    let inp = aligned_payload(v, e, m, invert);
+                    if select {
+                        crate::gen::select_line(&inp, e, 2, v, forced)
+                    } else {
+                        crate::gen::build_line(&inp, Opts { ecl: Some(e), mode: Some(2), version: Some(v), mask: forced })
+                    }
+                });
+            }
+        }
+    }
+}
